@@ -80,3 +80,43 @@ Proof.
     destruct (N.to_nat (N.shiftr i 9)); cbn [nth]; destruct (N.ltb_spec i 0); try lia; reflexivity. }
   apply H.
 Qed.
+
+(* ---------- the allocation from the size field ---------- *)
+(* after any history of saves and crashes the size field is 0 or the length of a saved payload: the allocation is as
+   large as a value the application itself stored, never larger *)
+Lemma history_alloc_ok ops limit now :
+  Forall op_ok ops -> (forall t d, In (t, d) (saves_of ops) -> N.of_nat (length d) <= limit) ->
+  alloc_fails limit now (cur (run ops)) = false.
+Proof.
+  intros Hok Hlim. pose proof (run_inv ops Hok) as Hi. unfold alloc_fails.
+  destruct (run ops) as [f|]; cbn [cur st_inv] in *; [|reflexivity].
+  destruct Hi as [E|[L [H|(t & d & Hin & (Ht & Hd & Hs) & E)]]].
+  - subst f. reflexivity.
+  - rewrite (hdr_size_16 f), H. change (hdr_size (repeat 0 16)) with 0.
+    destruct (N.ltb_spec limit 0); [lia|]. rewrite andb_false_r. reflexivity.
+  - cbn [fst snd] in *. rewrite (hdr_size_16 f), E, hdr_size_header.
+    unfold small in Hs. rewrite N.mod_small by (change (2 ^ 32) with 4294967296; change (2 ^ 31) with 2147483648 in Hs; lia).
+    specialize (Hlim t d Hin). destruct (N.ltb_spec limit (N.of_nat (length d))); [lia|]. rewrite andb_false_r. reflexivity.
+Qed.
+
+(* but a planted 19-byte file with a well-formed name asks for 2 GiB: with less memory than that load throws, returns nothing
+   and removes nothing, and gc keeps the file as long as its timestamp is in the future *)
+Definition g_file : list N := enc_s64 5000 ++ le_bytes 4 0 ++ le_bytes 4 2147483632 ++ [97; 98; 99].
+Lemma garbage_alloc_witness :
+  length g_file = 19%nat /\ alloc_fails (2 ^ 30) 1000 g_file = true /\ timestamp_ok 1000 g_file = true /\
+  forall nm, load_limited (2 ^ 30) 1000 nm [(nm, g_file)] = (LExc, [(nm, g_file)]).
+Proof.
+  split; [reflexivity|]. split; [vm_compute; reflexivity|]. split; [vm_compute; reflexivity|].
+  intros nm. unfold load_limited. cbn [lookup]. rewrite name_eqb_refl.
+  replace (alloc_fails (2 ^ 30) 1000 g_file) with true by (vm_compute; reflexivity). reflexivity.
+Qed.
+
+(* with enough memory the same file is simply unreadable and removed *)
+Lemma load_limited_enough limit now nm d f :
+  lookup nm d = Some f -> hdr_size f <= limit ->
+  load_limited limit now nm d =
+    match load now nm d with (Some (t, x), d') => (LSome t x, d') | (None, d') => (LNone, d') end.
+Proof.
+  intros Hl Hs. unfold load_limited. rewrite Hl. unfold alloc_fails.
+  destruct (N.ltb_spec limit (hdr_size f)); [lia|]. rewrite andb_false_r. reflexivity.
+Qed.
